@@ -1,9 +1,9 @@
 """Logging shims for the concurrent receiver (taskiq/receiver/receiver.py), installed from the driver process.
 
 Nothing in /repo is edited: `taskiq.receiver.receiver.asyncio` is replaced by a module object that forwards to
-the real asyncio except for Queue / wait (task creation is observed by the loop's task factory, whichever API is used); the two semaphores and the finish event are logging
+the real asyncio except for Queue / wait (task creation is observed by the virtual loop's task TAGGER - vloop.VLoop.set_task_tagger -, whichever API is used; the loop's task factory stays what the code under test made it); the two semaphores and the finish event are logging
 subclasses; prefetcher / runner / callback are wrapped as *instance attributes* only to tag the running task
-with a role; a task factory on the driver's loop logs every task created while a message's callback task is running
+with a role; the task tagger of the driver's loop logs every task created while a message's callback task is running
 (`bg.new i` / `bg.done i`: work spawned for message i).  Every shim appends `[t_us, tag, a, b]` to one global raw log; `to_lts` maps the raw log to
 events of coq/theories/RecvLTS.v (fail-closed: an unexpected raw sequence becomes an `EBad` marker that the
 caller reports as a rejected trace)."""
@@ -28,8 +28,10 @@ def role():
     return getattr(t, "_vrole", None) if t is not None else None
 
 
-def make_sem(log, n, name):
-    class LSem(asyncio.Semaphore):
+def make_sem(log, n, name, base=asyncio.Semaphore):
+    class LSem(base):
+        _vlog = True
+
         async def acquire(self):
             r = await super().acquire()
             log.add(name + ".acq", role())
@@ -104,15 +106,15 @@ def install(rmod, log, ident):
         return d, p
 
     def note_created(t, r):
-        """called by the task factory for a task created while the prefetcher (r == "pf") or the runner (r == "rn") is the
-        running task - whatever API made it (asyncio.create_task, loop.create_task, ensure_future)"""
+        """called by the loop's task tagger for a task created while the prefetcher (r == "pf") or the runner (r == "rn") is the
+        running task - whatever API made it (asyncio.create_task, loop.create_task, ensure_future); returns done-callbacks"""
         if r == "pf":
             log.add("la.new")
             # the look-ahead fetch ended because the broker's stream ended (used by the mapping only when the prefetcher
             # does not wait through asyncio.wait, see to_lts)
-            t.add_done_callback(lambda _t: log.add("la.exh") if not _t.cancelled()
-                                and isinstance(_t.exception(), StopAsyncIteration) else None)
-        elif r == "rn":
+            return [lambda _t: log.add("la.exh") if not _t.cancelled()
+                    and isinstance(_t.exception(), StopAsyncIteration) else None]
+        if r == "rn":
             # the task is created for the message the runner has just taken from the queue.  The callback coroutine may
             # be handed over directly (LAST_CB says for which message it was made) or wrapped by the runner in a coroutine of
             # its own (a harmless refactoring): then the message is the one of the preceding q.get, and the callback that
@@ -121,12 +123,21 @@ def install(rmod, log, ident):
             got = LAST_GET.pop("id", None)
             t._vexpect = got
             log.add("spawn", made_for if made_for is not None else got)
+        return []
 
     class Shim(types.ModuleType):
         def __getattr__(self, n):
             return getattr(asyncio, n)
 
     def tag(t, loop):
+        """the task tagger of the driver's loop (vloop.VLoop.set_task_tagger): called for every asyncio Task made by
+        loop.create_task - whatever API was used (create_task, ensure_future, loop.create_task) and whatever makes the task (the
+        default constructor, a task factory the application or the code under test set on the loop - at any time -, an eager
+        one) - BEFORE the task's first step, the creating task being the current one.  The loop's task factory is not
+        touched: loop.get_task_factory() is what the code under test / the application set, None by default.
+        A task created while a message's callback task (or a task that one created) is the running task is work spawned for
+        that message: `bg.new i` at creation, `bg.done i` from its done-callback (returned: the loop adds them)."""
+        cbs = []
         try:
             cur = asyncio.current_task(loop)
         except RuntimeError:
@@ -135,35 +146,13 @@ def install(rmod, log, ident):
         if owner is not None:
             t._vmsg = owner
             log.add("bg.new", owner)
-            t.add_done_callback(lambda _t: log.add("bg.done", owner))
+            cbs.append(lambda _t: log.add("bg.done", owner))
         r = getattr(cur, "_vrole", None) if cur is not None else None
         if r in ("pf", "rn"):
-            note_created(t, r)
-        return t
+            cbs += note_created(t, r)
+        return cbs
 
-    def task_factory(loop, coro, **kw):
-        """every asyncio Task created on the loop while a message's callback task (or a task that one created) is the
-        running task is work spawned for that message - whatever API made it (create_task, ensure_future, loop.create_task):
-        `bg.new i` at creation, `bg.done i` from its done-callback"""
-        # (the loop may already have a task factory - chosen by whoever created / configured the loop, e.g. the worker's entry
-        # point: that one makes the task, this one only tags it)
-        return tag(asyncio.Task(coro, loop=loop, **kw) if prev_factory is None else prev_factory(loop, coro, **kw), loop)
-
-    prev_factory = log.loop.get_task_factory()
-    eager = getattr(asyncio, "eager_task_factory", None)
-    if prev_factory is not None and eager is not None and getattr(prev_factory, "__code__", None) is eager.__code__ \
-            and getattr(prev_factory, "__closure__", None):
-        # an eager task factory (asyncio.eager_task_factory / create_eager_task_factory(ctor)): libraries recognise it by its
-        # code object (anyio does, to start its own tasks lazily).  Stay recognisable: the same kind of factory over a task
-        # constructor that tags what the original constructor makes
-        ctor = prev_factory.__closure__[0].cell_contents
-
-        def tagging_ctor(coro, *, loop=None, **kw):
-            return tag(ctor(coro, loop=loop, **kw), loop)
-
-        log.loop.set_task_factory(asyncio.create_eager_task_factory(tagging_ctor))
-    else:
-        log.loop.set_task_factory(task_factory)
+    log.loop.set_task_tagger(tag)
     shim = Shim("asyncio_logging_shim")
     shim.Queue = LQueue
     shim.wait = wait
@@ -179,18 +168,50 @@ def install(rmod, log, ident):
 
 def wrap_receiver(r, log, ident, A, P):
     """logging semaphores + role tags on one Receiver instance"""
-    # the logging semaphores start with the permits the real constructor computed (not with the scenario's A, P)
-    if r.sem is not None:
-        r.sem = make_sem(log, r.sem._value, "sem")
-    r.sem_prefetch = make_sem(log, r.sem_prefetch._value, "semp")
+    # the logging semaphores start with the permits the real constructor computed (not with the scenario's A, P); they are of
+    # the class the code under test chose (Semaphore, BoundedSemaphore, ...)
+    NAMES = {"sem": "sem", "sem_prefetch": "semp"}
+
+    def logging_one(attr, value):
+        if isinstance(value, asyncio.Semaphore) and not getattr(value, "_vlog", False):
+            return make_sem(log, value._value, NAMES[attr], type(value))
+        return value
+
+    def ensure():
+        for attr in NAMES:
+            v = getattr(r, attr, None)
+            w = logging_one(attr, v)
+            if w is not v:
+                setattr(r, attr, w)
+
+    ensure()
+    # The observation survives a RE-CREATION of the semaphores by the code under test (a listen() that builds fresh primitives
+    # for the running loop, a reset between sessions): whatever asyncio.Semaphore is assigned to r.sem / r.sem_prefetch later is
+    # replaced by a logging one of the same class and value at the assignment (the instance's class becomes a subclass of its
+    # own class that differs in nothing but __setattr__); and - should the class not allow that - when a prefetcher / runner
+    # of the instance starts.
+    cls = type(r)
+
+    def __setattr__(self, name, value):
+        if name in NAMES:
+            value = logging_one(name, value)
+        cls.__setattr__(self, name, value)
+
+    try:
+        r.__class__ = type(cls.__name__, (cls,), {"__setattr__": __setattr__, "__module__": cls.__module__,
+                                                  "__qualname__": cls.__qualname__})
+    except TypeError:
+        pass
     op, orr, ocb = r.prefetcher, r.runner, r.callback
 
     async def pref(q, ev):
         asyncio.current_task()._vrole = "pf"
+        ensure()
         return await op(q, ev)
 
     async def run(q):
         asyncio.current_task()._vrole = "rn"
+        ensure()
         return await orr(q)
 
     async def cb(message, raise_err=False):
